@@ -15,6 +15,7 @@
                     with (i) other restores still run, (ii) nothing diverted, (iii) restartable) *)
 From Coq Require Import String List NArith ZArith Ascii Bool Arith.
 From SV Require Import Lib.Bytes Model.FwLife Model.FwLifeSpec Proofs.FwLife_lemmas Proofs.FwLife_general.
+From SV Require Import Model.FwLog Proofs.FwLog_lemmas.
 Import ListNotations.
 
 (* ================================================================== *)
@@ -274,3 +275,124 @@ Proof.
   rewrite forallb_forall in H. apply H. apply in_seq. split; [apply Nat.le_0_l | apply Nat.lt_succ_r; exact Hc].
 Qed.
 Print Assumptions c04_pf_identity_partial.
+
+(* ================================================================== *)
+(* Logging is total (Model/FwLog.v, Proofs/FwLog_lemmas.v).              *)
+(* The tear-down runs when the client has been killed — typically because *)
+(* the terminal went away, so the helper's stderr is a hung-up tty and     *)
+(* every write to it fails.  With -v every command is preceded by a        *)
+(* debug1(), and at any verbosity a failing nonfatal() command is followed *)
+(* by a log(); an exception escaping from log() is not a Fatal, so         *)
+(* nonfatal() would not stop it and the rest of the restore would be       *)
+(* skipped.  What the code relies on:                                      *)
+
+(* helpers.log (helpers.py:25-45) returns normally whenever each of its stream operations
+   (sys.stdout.flush, every sys.stderr.write, sys.stderr.flush) succeeds or raises a class its
+   except clauses name ... *)
+Theorem c04_log_total : forall sw env nlines,
+  (forall i, lout_sw sw (env i) = true) -> log_call sw env nlines = None.
+Proof. exact log_call_total. Qed.
+Print Assumptions c04_log_total.
+
+(* ... and only then: what escapes was raised by an operation of that call and is not named *)
+Theorem c04_log_escape_only_unnamed : forall sw env nlines e,
+  log_call sw env nlines = Some e -> exists i, i <= S nlines /\ env i = LRaise e /\ sw e = false.
+Proof. exact log_call_escape. Qed.
+Print Assumptions c04_log_escape_only_unnamed.
+
+(* the clauses `except (IOError, ValueError)` name exactly the subclasses of OSError and of
+   ValueError (EIO of a hung-up tty, EPIPE, EBADF, "I/O operation on closed file",
+   UnicodeEncodeError, ...) *)
+Theorem c04_log_swallows_spec : forall e,
+  log_swallows e = true <-> subclass e COSError = true \/ subclass e CValueError = true.
+Proof. exact log_swallows_spec. Qed.
+Print Assumptions c04_log_swallows_spec.
+
+(* c04_log_faults_invisible: for EVERY verbosity, every message size, every outcome of every
+   stream operation of every log call — as long as each raised class is one log() swallows —
+   the session with its log points (sessionL: debug1 before each ipt/nft command, log after each
+   failed nonfatal command, the debug calls of firewall.main incl. the guards of the finally
+   block) has the same exit class, issues the same commands with the same results, passes the
+   same kernel states and ends in the same state as the session without logging.  Every cut,
+   every fault set, every initial state, every plan; nat, nft, tproxy.  Hence every C04 theorem
+   above holds under log faults. *)
+Theorem c04_log_faults_invisible : forall L pre c cut faults s0,
+  all_sw L -> not_pf c = true ->
+  rl_res (sessionL L pre c cut faults s0) = session c cut faults s0.
+Proof. exact sessionL_erase. Qed.
+Print Assumptions c04_log_faults_invisible.
+
+(* the same for the real clauses, in terms of classes: every raised exception is an OSError or
+   a ValueError (any subclass) *)
+Corollary c04_log_faults_same_commands : forall L L' pre pre' c cut faults s0,
+  lg_sw L = log_swallows -> lg_sw L' = log_swallows ->
+  (forall j i e, lg_env L j i = LRaise e -> subclass e COSError = true \/ subclass e CValueError = true) ->
+  (forall j i e, lg_env L' j i = LRaise e -> subclass e COSError = true \/ subclass e CValueError = true) ->
+  not_pf c = true ->
+  rl_res (sessionL L pre c cut faults s0) = rl_res (sessionL L' pre' c cut faults s0).
+Proof.
+  intros L L' pre pre' c cut faults s0 S S' E E' Hp.
+  apply log_faults_invisible; [apply all_sw_oserror_valueerror | apply all_sw_oserror_valueerror | ]; assumption.
+Qed.
+Print Assumptions c04_log_faults_same_commands.
+
+(* the "all exits" statement carried over: a hung-up terminal (every write to stderr — with
+   `both` also the flush of stdout — raises OSError(EIO) from operation i0 of log call j0 on),
+   any verbosity, any k-th command failing before the finally block or no command failing
+   (k beyond the last command): the final state is the initial one. *)
+Corollary c04_nat_all_exits_hangup : forall c v nl j0 i0 both pre,
+  c_method c = MNat -> c_owner c = None -> c_udp c = false -> cfg_wf c = true ->
+  (forall f, nospace (fc_port (fcfg c f)) = true) ->
+  forall s0 k cut, erase c s0 = s0 -> kst_wf s0 = true ->
+  let r := rl_res (sessionL (mkLog v log_swallows (env_from j0 i0 COSError both) nl) pre c cut (fault_at k) s0) in
+  (cut < c_nlines c -> r_final r = s0 /\ r_events r = []) /\
+  (c_nlines c <= cut -> k < r_fin_at r \/ r_ncmds r <= k -> r_final r = s0).
+Proof.
+  intros c v nl j0 i0 both pre Hm Ho Hu Hw Hn s0 k cut He Hk. cbv zeta.
+  rewrite c04_log_faults_invisible;
+    [| apply all_sw_from; reflexivity | unfold not_pf; rewrite Hm; reflexivity].
+  pose proof (c04_nat_all_exits c Hm Ho Hu Hw Hn s0 k cut He Hk) as S. unfold sess_ok in S.
+  split.
+  - intro Hc. apply Nat.ltb_lt in Hc. rewrite Hc in S. apply andb_true_iff in S as [S1 S2].
+    apply kstate_eqb_eq in S1. split; [exact S1|].
+    destruct (r_events (session c cut (fault_at k) s0)); [reflexivity | discriminate].
+  - intros Hc Hkk.
+    assert (Hc' : Nat.ltb cut (c_nlines c) = false) by (apply Nat.ltb_ge; exact Hc).
+    rewrite Hc' in S.
+    assert (Hk' : Nat.ltb k (r_fin_at (session c cut (fault_at k) s0))
+                  || Nat.leb (r_ncmds (session c cut (fault_at k) s0)) k = true).
+    { apply orb_true_iff. destruct Hkk as [A|A]; [left; apply Nat.ltb_lt | right; apply Nat.leb_le]; exact A. }
+    rewrite Hk' in S. apply kstate_eqb_eq in S. rewrite S. exact He.
+Qed.
+Print Assumptions c04_nat_all_exits_hangup.
+
+(* non-vacuity: the injected environments satisfy the hypothesis *)
+Example c04_log_hyps_satisfiable :
+  all_sw (mkLog 2 log_swallows env_ok (fun _ => 1)) /\
+  all_sw (mkLog 1 log_swallows (env_from 19 1 COSError false) (fun _ => 1)) /\
+  all_sw (mkLog 0 log_swallows (env_once 3 0 CBrokenPipeError) (fun _ => 3)) /\
+  log_swallows CUnicodeEncodeError = true /\ log_swallows CTimeoutError = true /\
+  log_swallows CRuntimeError = false /\ log_swallows CTypeError = false.
+Proof.
+  split; [apply all_sw_ok |].
+  split; [apply all_sw_from; reflexivity |].
+  split; [apply all_sw_once; reflexivity |].
+  vm_compute. repeat split.
+Qed.
+
+(* The hypothesis is needed.  With the narrower clause `except (BrokenPipeError, ValueError)`
+   a verbose nat session whose terminal hangs up after STARTED (every stderr write raises
+   OSError(EIO) from log call j0 on) "returns" normally having issued only the two chain
+   listings of the tear-down, and the diverting rules stay; with the real clause the same
+   session ends in the initial state. *)
+Theorem c04_log_narrow_refuted :
+  exists j0,
+    let rn := sessionL (L_hup log_swallows_narrow 1 j0) pre_sample cfg_nat (full_cut cfg_nat) no_faults ex_state in
+    let rs := sessionL (L_hup log_swallows 1 j0) pre_sample cfg_nat (full_cut cfg_nat) no_faults ex_state in
+    log_swallows COSError = true /\ log_swallows_narrow COSError = false /\
+    has_mark MStarted (r_events (rl_res rn)) = true /\ r_outcome (rl_res rn) = ExitReturn /\
+    r_ncmds (rl_res rn) = r_fin_at (rl_res rn) + 2 /\
+    no_divert cfg_nat (r_final (rl_res rn)) = false /\
+    kstate_eqb (r_final (rl_res rs)) ex_state = true /\ r_ncmds (rl_res rs) = 28.
+Proof. exact narrow_refuted. Qed.
+Print Assumptions c04_log_narrow_refuted.
